@@ -608,6 +608,16 @@ impl World {
                     self.exit(&mut ev)
                 }
                 "adv" => self.set_clock(&mut ev),
+                "probe" => {
+                    // enforcement probe: one entry of n tokens, exited at once if admitted
+                    self.set_clock(&mut ev);
+                    ev["id"] = json!(u64::MAX / 2);
+                    self.enter(&mut ev);
+                    if let Some(e) = self.entries.remove(&(u64::MAX / 2)) {
+                        let _ = guarded(|| e.exit());
+                    }
+                    ev.as_object_mut().unwrap().remove("id");
+                }
                 "sysload" => {
                     self.set_clock(&mut ev);
                     verif::system::set_system_load(num(&ev["v"]));
